@@ -204,3 +204,25 @@ def standin_typeddiff(prop, tier, seed, scratch, root):
                               'where': 'mpd_client/src/responses', 'rendered': json.dumps(j)[:3000], 'input': {'kind': j['kind'], 'seed': j['seed'], 'reply': j.get('reply')},
                               'replayed': rep, 'replay_bin': 'typed_diff', 'replay_args': args})
     return row
+
+
+def standin_listpair(prop, tier, seed, scratch, root):
+    """probe commands through every tuple arity and Vec lengths 0..24 (the Vec impl is built from iterator adaptors Verus cannot specify)"""
+    import replay as RP, json
+    rr = RP.run_bin('list_pair', scratch, [], timeout=300)
+    row = {'function': '<Vec<C> as CommandList>::{command_list, responses} (iterator adaptors map / zip / extend: not under contract); cross-check of the eight tuple impls',
+           'engine': 'native run with probe commands whose reply identifies them (replay/src/bin/list_pair.rs); the impls are generic in the command type, so probes exercise every position',
+           'label': 'bounded', 'bound': 'tuple arities 1..8 (exact and one frame short), Vec lengths 0..24 (exact, one short, one extra)', 'violations': []}
+    if not rr.get('ran'):
+        row['undecided'] = rr.get('reason', 'did not run'); return row
+    if not rr['fails']:
+        try: row['cases'] = json.loads(rr['output'].strip().split('\n')[-1]).get('cases', 0)
+        except Exception: row['cases'] = 0
+        row['result'] = 'agree'; row['distinct_nontrivial'] = row['cases']; row['exhaustive'] = True
+        return row
+    rr.pop('full_output', None)
+    row['result'] = 'DEVIATION'
+    row['violations'].append({'props': ['C13', 'C12'] if 'panic' in rr.get('output', '') or 'Err(Any' in rr.get('output', '') else ['C13'], 'ob': 'C13.pair.probe', 'fn': 'CommandList for Vec<C> / tuples',
+                              'message': 'typed command list pairing deviates: ' + rr.get('output', '')[-400:], 'where': 'mpd_client/src/commands/command_list.rs', 'rendered': rr.get('output', ''),
+                              'input': {'probe': 'see output'}, 'replayed': rr, 'replay_bin': 'list_pair', 'replay_args': []})
+    return row
